@@ -376,7 +376,25 @@ func (e *Engine) model(st *State, ci *CallInfo, site string) []*Term {
 	case "fmt.Sprintf", "fmt.Sprint", "fmt.Sprintln":
 		return []*Term{Fresh(site)}
 	}
+	if pureFuncs[name] {
+		n := ci.Static.Signature.Results().Len()
+		out := make([]*Term, n)
+		for k := 0; k < n; k++ {
+			out[k] = Pure(name, k, ci.Args...)
+		}
+		return out
+	}
 	return nil
+}
+
+// pureFuncs are library functions whose results are determined by their
+// arguments (for the purposes of provenance): equal arguments, equal term.
+var pureFuncs = map[string]bool{
+	"reflect.ValueOf": true, "reflect.TypeOf": true,
+	"(reflect.Value).Kind": true, "(reflect.Value).Len": true, "(reflect.Value).Type": true, "(reflect.Value).Elem": true,
+	"(reflect.Value).Index": true, "(reflect.Value).IsNil": true, "(reflect.Value).Interface": true, "(reflect.Value).IsValid": true,
+	"(reflect.Value).CanSet": true, "(reflect.Value).CanInterface": true, "(reflect.Value).IsZero": true,
+	"encoding/json.Marshal": true,
 }
 
 func stripBox(t *Term) *Term {
